@@ -26,6 +26,11 @@ LeavesOf(fam) ==
                           \* a declared property whose type keeps more than the index signature's value type does
                           Obj(<<Prop("o", Obj(<<Prop("x", TNumber, FALSE), Prop("y", TNumber, FALSE)>>, <<>>), FALSE)>>,
                               <<Ix(TString, Obj(<<Prop("x", TNumber, FALSE)>>, <<>>))>>),
+                          \* declared keys named like members of Object.prototype
+                          Obj(<<Prop("toString", TString, FALSE), Prop("valueOf", TNumber, TRUE)>>, <<>>),
+                          Obj(<<Prop("constructor", TString, FALSE), Prop("a", TString, FALSE)>>, <<>>),
+                          Obj(<<Prop("__proto__", Obj(<<Prop("x", TNumber, FALSE)>>, <<>>), FALSE), Prop("a", TString, FALSE)>>, <<>>),
+                          Obj(<<>>, <<Ix(TString, Obj(<<Prop("x", TNumber, FALSE)>>, <<>>))>>),
                           \* the empty object type, alone and as the value type of an index signature (digest: where an object ends)
                           Obj(<<>>, <<>>), Obj(<<>>, <<Ix(TString, Obj(<<>>, <<>>))>>)}
     [] fam = "tuple"  -> {TString, TNumber, LS("x"), Uni(<<TString, TUndef>>)}
